@@ -360,6 +360,7 @@ func findReference(msaIn io.Reader, referenceID string) (fastaio.EncodedFastaRec
 func RegionsFromGFF(anno gff.GFF, refSeqDegapped string) ([]Region, []int, error) {
 
 	IDed := make(map[string][]gff.Feature)
+	ids := make([]string, 0) // IDs in the order they first appear in the file
 	other := make([]gff.Feature, 0)
 	for _, f := range anno.Features {
 		if !(f.Type == "CDS" || f.Type == "mature_protein_region_of_CDS") {
@@ -368,6 +369,9 @@ func RegionsFromGFF(anno gff.GFF, refSeqDegapped string) ([]Region, []int, error
 		if f.HasAttribute("ID") {
 			id, ok := f.Attributes["ID"]
 			if ok {
+				if _, seen := IDed[id[0]]; !seen {
+					ids = append(ids, id[0])
+				}
 				IDed[id[0]] = append(IDed[id[0]], f)
 			} else {
 				IDed[id[0]] = []gff.Feature{f}
@@ -378,8 +382,8 @@ func RegionsFromGFF(anno gff.GFF, refSeqDegapped string) ([]Region, []int, error
 	}
 
 	tempcds := make([]Region, 0)
-	for _, f := range IDed {
-		r, err := CDSRegion2fromGFF(f, refSeqDegapped)
+	for _, id := range ids {
+		r, err := CDSRegion2fromGFF(IDed[id], refSeqDegapped)
 		if err != nil {
 			return []Region{}, []int{}, err
 		}
@@ -828,7 +832,17 @@ func AggregateWriteVariants(w io.Writer, start, end int, appendSNP bool, thresho
 	}
 
 	sort.SliceStable(order, func(i, j int) bool {
-		return order[i].Position < order[j].Position || (order[i].Position == order[j].Position && order[i].Changetype < order[j].Changetype) || (order[i].Position == order[j].Position && order[i].Changetype == order[j].Changetype && order[i].QueAl < order[j].QueAl)
+		if order[i].Position != order[j].Position {
+			return order[i].Position < order[j].Position
+		}
+		if order[i].Changetype != order[j].Changetype {
+			return order[i].Changetype < order[j].Changetype
+		}
+		if order[i].QueAl != order[j].QueAl {
+			return order[i].QueAl < order[j].QueAl
+		}
+		// the map's iteration order is random: break remaining ties on what is printed
+		return order[i].Representation < order[j].Representation
 	})
 
 	for _, V := range order {
